@@ -52,7 +52,7 @@ UTF8_EDGE = ['\u00a0', '\u0085', '\u2028', '\u3000', '\u200b', '\u00e9', '\u2003
 def utf8_edge_name(cat):
     """A name that differs from a database name (or an ordinary unknown one) only by a valid UTF-8 character at its
     start or end - characters that string clean-up routines like to treat as blanks.  Such a name is a name of its own."""
-    return st.tuples(st.one_of(st.sampled_from(db_names(cat)), unknown_name(12)), st.sampled_from(UTF8_EDGE), st.sampled_from(['pre', 'post', 'post', 'both'])).map(
+    return st.tuples(st.one_of(st.sampled_from(db_names(cat)), unknown_name(12), st.just('')), st.sampled_from(UTF8_EDGE), st.sampled_from(['pre', 'post', 'post', 'both'])).map(
         lambda t: ((t[1] if t[2] in ('pre', 'both') else '') + t[0] + (t[1] if t[2] in ('post', 'both') else '')).encode('utf-8').decode('latin-1'))
 
 
